@@ -18,7 +18,7 @@ pub fn def() -> PropDef {
         job_level,
         run_job,
         replay,
-        rule: "configs: every action-menu entry on key a (b, c plain) [U1, including latching and on-idle entries] + the curated feature-interaction configs [U3]. Loop twin: a transcription of the control structure of start_processing_loop over a logical ms clock; everything inside is the real code (can_block_update_idle_waiting, handle_input_event, tick_ms). Steps: E(k) = an input event that begins a millisecond (event + the tick the loop runs with it), B(k) = a further event in the same millisecond (no tick), G(n) = n ms without input. Histories: ALL physically consistent sequences of D steps over {E/B press/release of a,b,c, G(1), G(7), G(40)} followed by G(60). Each history is executed twice on fresh real instances: mode A blocks (executes no tick) in every ms in which can_block_update_idle_waiting(1) is true, mode B always ticks. Oracle: (i) the output event lists with logical-ms stamps are identical in A and B (nothing postponed, nothing different after the gap); (ii) in mode B, every tick taken in a state where blocking was allowed emits nothing and leaves the state digest (hooks H1/H2) unchanged (stutter invariance: by determinism this extends the equality to every gap length and continuation). Long-gap family: gaps of 1100 and 70000 ms on curated configs. Conformance family (binds the twin to the code; wall clock, not exhaustive, reported under traces_validated_against_impl/counters): 25 scripted traces (plain, layers, tap-hold tap/hold/after long idle, one-shot, macro, tap-dance, chords, sequences, caps-word, hold-for-duration, on-idle) are run against the REAL Kanata::start_processing_loop (own thread, std mpsc channel, real clock, margins >= 10x) and must produce the outputs the twin predicts and execute no more than 3x+150 of the twin's ticks (i.e. really block).",
+        rule: "configs: every action-menu entry on key a (b, c plain) [U1, including latching and on-idle entries] + the curated feature-interaction configs [U3] + zippychord configs (explored from the start, from the state after the two-key chord, and from the state after a single-key chord was typed and released). Loop twin: a transcription of the control structure of start_processing_loop over a logical ms clock; everything inside is the real code (can_block_update_idle_waiting, handle_input_event, tick_ms). Steps: E(k) = an input event that begins a millisecond (event + the tick the loop runs with it), B(k) = a further event in the same millisecond (no tick), G(n) = n ms without input. Histories: ALL physically consistent sequences of D steps over {E/B press/release of a,b,c, G(1), G(7), G(40)} followed by G(60). Each history is executed twice on fresh real instances: mode A blocks (executes no tick) in every ms in which can_block_update_idle_waiting(1) is true, mode B always ticks. Oracle: (i) the output event lists with logical-ms stamps are identical in A and B (nothing postponed, nothing different after the gap); (ii) in mode B, every tick taken in a state where blocking was allowed emits nothing and leaves the state digest (hooks H1/H2) unchanged (stutter invariance: by determinism this extends the equality to every gap length and continuation). Long-gap family: gaps of 1100 and 70000 ms on curated configs. Conformance family (binds the twin to the code; wall clock, not exhaustive, reported under traces_validated_against_impl/counters): 25 scripted traces (plain, layers, tap-hold tap/hold/after long idle, one-shot, macro, tap-dance, chords, sequences, caps-word, hold-for-duration, on-idle) are run against the REAL Kanata::start_processing_loop (own thread, std mpsc channel, real clock, margins >= 10x) and must produce the outputs the twin predicts and execute no more than 3x+150 of the twin's ticks (i.e. really block).",
         assumptions: &[
             "the real thread interleavings of the processing thread with the OS event thread and the TCP thread are not explored (std/parking_lot primitives are invisible to loom/shuttle); all access to Kanata is under one mutex, so every interleaving is a sequence of whole critical sections, which is what the twin's alphabet enumerates",
             "scheduler jitter (ms_elapsed 2..10) is not modelled here",
@@ -198,6 +198,8 @@ struct Job {
     level: u32,
     /// Some(i) = conformance trace i against the real start_processing_loop (wall clock)
     conf: Option<usize>,
+    /// steps executed before the enumerated part (must leave no key down)
+    prefix: Vec<Step>,
 }
 
 fn jobs(tier: Tier) -> &'static Vec<Job> {
@@ -213,7 +215,7 @@ fn jobs(tier: Tier) -> &'static Vec<Job> {
         let mut v = vec![];
         // conformance traces first: they are wall-clock and run best before the CPU-heavy jobs
         for i in 0..super::conform::TRACES.len() {
-            v.push(Job { tag: format!("conformance/{}", super::conform::TRACES[i].tag), cfg: super::conform::TRACES[i].cfg.to_string(), depth: 0, first: 0, long: false, level: 0, conf: Some(i) });
+            v.push(Job { tag: format!("conformance/{}", super::conform::TRACES[i].tag), cfg: super::conform::TRACES[i].cfg.to_string(), depth: 0, first: 0, long: false, level: 0, conf: Some(i), prefix: vec![] });
         }
         let levels: &[(u32, usize, usize)] = match tier {
             Tier::Quick => &[(0, 4, 4)],
@@ -223,16 +225,31 @@ fn jobs(tier: Tier) -> &'static Vec<Job> {
             for m in &menu {
                 let cfg = cfg3(&m.text, "b", "c", &o);
                 for first in 0..9 {
-                    v.push(Job { tag: format!("U1/{}", m.tag), cfg: cfg.clone(), depth: d1, first, long: false, level: lvl, conf: None });
+                    v.push(Job { tag: format!("U1/{}", m.tag), cfg: cfg.clone(), depth: d1, first, long: false, level: lvl, conf: None, prefix: vec![] });
                 }
             }
             for i in 0..super::c01::CURATED.len() {
                 let cfg = super::c01::curated_cfg(i);
                 for first in 0..9 {
-                    v.push(Job { tag: format!("U3/{}", super::c01::CURATED[i].0), cfg: cfg.clone(), depth: d3, first, long: false, level: lvl, conf: None });
+                    v.push(Job { tag: format!("U3/{}", super::c01::CURATED[i].0), cfg: cfg.clone(), depth: d3, first, long: false, level: lvl, conf: None, prefix: vec![] });
                 }
                 if lvl == 0 {
-                    v.push(Job { tag: format!("long/{}", super::c01::CURATED[i].0), cfg, depth: 3, first: 0, long: true, level: 0, conf: None });
+                    v.push(Job { tag: format!("long/{}", super::c01::CURATED[i].0), cfg, depth: 3, first: 0, long: true, level: 0, conf: None, prefix: vec![] });
+                }
+            }
+            // zippychord configs (with embedded dictionary): from the start, after the two-key chord, and
+            // after the top-level single-key chord has been typed and released
+            for (tag, text) in super::c01::EXTRA_CFGS {
+                let (a, b, c) = (kc("a"), kc("b"), kc("c"));
+                for (ptag, prefix) in [
+                    ("", vec![]),
+                    ("/after-ab", vec![Step::E(true, a), Step::B(true, b), Step::G(3), Step::E(false, a), Step::E(false, b)]),
+                    ("/after-c", vec![Step::E(true, c), Step::G(2), Step::E(false, c)]),
+                    ("/after-ab-c", vec![Step::E(true, a), Step::B(true, b), Step::G(3), Step::E(false, a), Step::E(false, b), Step::E(true, c), Step::G(2), Step::E(false, c)]),
+                ] {
+                    for first in 0..9 {
+                        v.push(Job { tag: format!("U3x/{tag}{ptag}"), cfg: text.to_string(), depth: d3, first, long: false, level: lvl, conf: None, prefix: prefix.clone() });
+                    }
                 }
             }
         }
@@ -386,7 +403,8 @@ fn run_job(tier: Tier, idx: usize, st: &mut Stats) {
             return;
         }
         n += 1;
-        let mut full = steps.to_vec();
+        let mut full = j.prefix.clone();
+        full.extend_from_slice(steps);
         full.push(Step::G(60));
         if let Some((sig, what)) = check(&j.cfg, &full, st) {
             let sig = format!("{}::{}", j.tag, sig);
